@@ -15,7 +15,7 @@ func init() {
 		id:          "C09",
 		run:         runC09,
 		explanation: "Static typestate/pairing analysis (path-sensitive, on SSA) of everything a failing or finishing operation must give back: the write-lock token (a capacity-1 channel) against a reviewed per-function exit contract, every sync.Mutex/RWMutex in the engine packages, the internally opened large-batch transaction, and locks held across the compaction exit-panic protocol; plus an exhaustive inventory of every blocking channel operation in package leveldb (each must be a select with a close/timeout case or a reviewed rendezvous), the acknowledge-on-exit epilogues of the background loops, and the order of Close. Each clause is a structural necessary condition: breaking it gives a schedule/fault position at which some call blocks forever. Liveness itself (that waits are eventually signalled, fairness) is NOT decided.",
-		notCovered:  "progress under fair scheduling; that every wait is eventually signalled; lock-order cycles inside the cache/table-reader layer (one node of the order graph: its instances are ordered by layer and bucket hierarchy, which type-based lock names cannot express; the one known callback edge is checked by C17.3), through ambiguous interface dispatch (Releaser/Iterator call sites with several implementations are not followed). Waits under a mutex are checked only against the lock needs of the goroutine on the other end (C09.12), not for that goroutine being alive or scheduled",
+		notCovered:  "progress under fair scheduling; that every wait is eventually signalled; lock-order cycles BETWEEN different objects of the cache/table-reader layer (one node of the order graph: its instances are ordered by layer and bucket hierarchy, which type-based lock names cannot express; re-acquisition on ONE object — a path crossing no callback — is decided, see D17; the one known callback edge is checked by C17.3), through ambiguous interface dispatch (Releaser/Iterator call sites with several implementations are not followed). Waits under a mutex are checked only against the lock needs of the goroutine on the other end (C09.12), not for that goroutine being alive or scheduled",
 		assumptions: []string{"sync.Mutex is not re-entrant; a capacity-1 channel send blocks while the token is out", "the reviewed rendezvous table (plain sends/receives) in rules_c09.go"},
 	})
 }
